@@ -397,6 +397,8 @@ def render_lit(c):
         return pro + 'void pr(char *s) { }\nvoid main() { pr("%s"); }\n' % raw
     if k == "twocalls":      # two literals in different nested sub-expressions of one statement: both must be stored
         return pro + 'char r0;\nchar g0(char *s) { return s[0]; }\nchar f0(char *s) { return s[1]; }\nvoid main() { r0 = g0("%s") + f0("Zq"); }\n' % raw
+    if k == "subscript":     # a literal inside an array subscript, another one after it
+        return pro + 'char a0[4];\nchar g0(char *s) { return s[0]; }\nchar f0(char *s) { return s[1]; }\nvoid main() { X = a0[g0("%s")] + f0("Zq"); }\n' % raw
     if k == "asm":
         return pro + 'void main() { asm("%s", 3); }\n' % raw
     if k == "twoline":
@@ -441,7 +443,7 @@ def observe_lit(c, o):
     if k == "callarg":
         lits = [v for v in vs if v["name"].startswith("cctmp") and v["def"] and "array" in v["def"]]
         return [e.get("int") for e in lits[0]["def"]["array"]] if len(lits) == 1 else ["literal count", len(lits)]
-    if k == "twocalls":
+    if k in ("twocalls", "subscript"):
         lits = [[e.get("int") for e in v["def"]["array"]] for v in vs if v["name"].startswith("cctmp") and v["def"] and "array" in v["def"]]
         if len(lits) != 2 or [90, 113, 0] not in lits:
             return ["literals stored", lits]
@@ -517,7 +519,20 @@ def c09(tier):
                           dict(property=pid, body=c["body"], raw="".join(c["raw"]), context=c["ctx"], expected_bytes=want, problem=problem, source=c["_src"], finding_keys=keys))
     if accepted < 100:
         raise common.ToolError("vacuous: %d literals accepted" % accepted)
-    cov = dict(states=res.distinct, transitions=res.generated, traces_validated_against_impl=len(cases),
+    # ---- Layer 2: CppScan.tla (the scanner that extracts the literals, as coded), see C11; here the extracted literals are judged
+    from . import cppscan
+    if tier == "quick":
+        sres, sconfs, sdrift, _st, slits = cppscan.run(tier, "c09", 6, 4, 59, 12000)
+    else:
+        sres, sconfs, sdrift, _st, slits = cppscan.run(tier, "c09", 7, 5, 29, 150000)
+    if sdrift:
+        print("[vf] NOTE: cpp::process no longer behaves like CppScan.tla on %d of %d replayed texts (model drift), e.g. %s" % (len(sdrift), len(sconfs), json.dumps(sdrift[0])[:400]))
+    for v in slits:
+        verdict.violation("literal extraction: %r yields %s, the textbook scanner %s" % (v["text"], json.dumps(v["literals"]), json.dumps(v["textbook"])),
+                          dict(property=pid, layer="CppScan", text=v["text"], literals=v["literals"], textbook=v["textbook"]))
+    layer2 = dict(texts_model_checked=sres.distinct, invariants=["TextReq", "LitReq", "CommentReq", "LinesReq"], texts_replayed_into_cpp_process=len(sconfs),
+                  model_conformant=(len(sdrift) == 0), first_drift=(sdrift[0] if sdrift else None), drifts=len(sdrift), literal_lists_differing_from_textbook=len(slits))
+    cov = dict(states=res.distinct + sres.distinct, transitions=res.generated, traces_validated_against_impl=len(cases) + len(sconfs), layer2_CppScan=layer2,
                samples=[dict(body=c["body"], context=c["ctx"], source=c["_src"], expected_bytes=c["bytes"]) for c in cases[50:53]],
                literals_generated=total, literals_replayed=len(cases), accepted=accepted, rejected_by_compiler=rejected, disagreements=nbad,
                attributed_to_known_findings=verdict.known, max_body_symbols=maxlen, exhaustive=(len(cases) == total),
